@@ -1,0 +1,24 @@
+//go:build verif
+
+// Verification hooks for property C10 (build tag "verif"): thin exported
+// wrappers around unexported pure functions of the negotiation logic, used by
+// the /verif correspondence harness.  Add-only; nothing here is compiled
+// without the tag.
+package security
+
+// VerifNegotiateSecurity runs negotiateSecurity on a fresh SecurityNegotiation
+// built from the two configs and returns it together with the error.
+func VerifNegotiateSecurity(clientCfg, serverCfg *SecurityConfig, isClient bool) (*SecurityNegotiation, error) {
+	neg := &SecurityNegotiation{ClientConfig: clientCfg, ServerConfig: serverCfg, IsClient: isClient}
+	err := (&Authenticator{}).negotiateSecurity(neg)
+	return neg, err
+}
+
+// VerifBitmaskToAuthMethod exposes bitmaskToAuthMethod.
+func VerifBitmaskToAuthMethod(b int) AuthMethod { return bitmaskToAuthMethod(b) }
+
+// VerifAuthMethodToBitmask exposes authMethodToBitmask.
+func VerifAuthMethodToBitmask(m AuthMethod) int { return authMethodToBitmask(m) }
+
+// VerifCreateClientAuthBitmask exposes createClientAuthBitmask.
+func VerifCreateClientAuthBitmask(ms []AuthMethod) int { return createClientAuthBitmask(ms) }
